@@ -14,6 +14,13 @@ SPEC = dict(
          'the send outcomes of those writes taken from the plan (kernel mode: payloads of 20000..300000 bytes against a minimal SO_SNDBUF); then the peer talks (nothing may be '
          'delivered to a client the callback suspended), the backlog has to drain, resume() has to deliver the pending bytes, and the ordinary script continues. '
          'accept-exh enumerates origin x action x size class x every outcome sequence up to length N (quick 3, thorough 5). '
+         'drain-exh: one backlog is drained in several partial sends and after EVERY partial send a small write arrives (the send hook lets the peer say something, the next poll round '
+         'reports the client readable and onRead issues the write; sizes mostly below the amount just sent, steered by a model of the Buffer policy towards the in-place(front offset > 0) / '
+         'compact / exact-fit / grow branches of the append), so (partial drain, small write) repeats two or more times on one backlog; when the backlog has drained the onWrite handler acts: '
+         'nothing / write / suspend / suspend+write / write+suspend / remove another client whose read event is selected in the same batch - with or without peer data made pending just before '
+         'the poll round whose send completes the drain (one event carrying read and write readiness); a client suspended by onWrite is then talked to by its peer (nothing may be delivered), '
+         'resumed and must get the pending bytes. Enumerates action x pending x 2 size classes x every outcome sequence up to length N (quick 4, thorough 5). '
+         'rand / accept-rand: half of the cases carry the same two scripts (1..6 mid-drain writes per client, a random onWrite action) drawn from a separate stream. '
          'distinct = hash of the observed (send length, return) sequence and the operation sequence; non-trivial = at least one send took less than offered (partial or EAGAIN) '
          '(rand/kernel: and the backlog drained at least once). After every send: offered bytes == next accepted bytes; after every write and at every idle point: '
          'postponed == getSendBufferSize() == accepted - handed to the OS; onWrite exactly at the drain; peer stream == concatenation of accepted slices; independent poll() readiness vs dispatch.',
@@ -44,12 +51,22 @@ SPEC = dict(
                     accept_plans_fully_consumed=5580, onAccepted=3000, onConnected=3000, writes_in_onAccepted=2300, writes_in_onConnected=2300,
                     writes_in_onAccepted_leaving_backlog=1400, writes_in_onConnected_leaving_backlog=1400, suspends_in_onAccepted=1400, suspends_in_onConnected=1400,
                     nothing_in_onAccepted=400, nothing_in_onConnected=400, resume_after_callback_suspend_delivered_pending=2300, writes_while_suspended_since_callback=1100,
-                    **{'set:send_outcomes': 12, 'set:write_venues': 9, 'set:fresh_client_acts': 24}),
+                    drain_plans_fully_consumed=18720, partial_drains=300000, mid_drain_writes_scripted=22000, writes_between_partial_drains=22000, backlogs_drained_in_3plus_sends=24000,
+                    backlogs_with_2plus_mid_drain_writes=6000, appends_in_place_behind_front_offset=4000, appends_compacting=15000, cases_with_append_behind_front_offset=1500,
+                    onWrite_acts=15000, suspends_in_onWrite=7500, writes_in_onWrite_act=7500, writes_in_onWrite_act_leaving_backlog=2800, peer_data_injected_before_draining_poll=8000,
+                    events_readable_and_writable_with_onWrite_suspend_scripted=8000, followups_after_onWrite_suspend=5500, removes_in_callback=2200, remove_while_event_selected=1500,
+                    rand_cases_with_drain_scripts=9000,
+                    **{'set:send_outcomes': 12, 'set:write_venues': 9, 'set:fresh_client_acts': 24, 'set:onWrite_acts': 20, 'set:buffer_append_branches': 5}),
             T: dict(cases=160000, plans_fully_consumed=70308, send_calls=2300000, send_partial=1400000, send_eagain=190000, send_error=19000, backlog_drained=250000, onWrite=250000, writes_append_path=70000,
                     postponed_checks=490000, backlog_size_checks=5500000, peer_bytes_verified=36000000000, independent_poll_checks=3600000, streams_verified_end_to_end=160000,
                     suspend_while_event_selected=6000, resume_with_pending_data=60000,
                     accept_plans_fully_consumed=140580, onAccepted=60000, onConnected=60000, writes_in_onAccepted=50000, writes_in_onConnected=50000,
                     writes_in_onAccepted_leaving_backlog=30000, writes_in_onConnected_leaving_backlog=30000, suspends_in_onAccepted=30000, suspends_in_onConnected=30000,
                     nothing_in_onAccepted=9000, nothing_in_onConnected=9000, resume_after_callback_suspend_delivered_pending=55000, writes_while_suspended_since_callback=27000,
-                    **{'set:send_outcomes': 12, 'set:write_venues': 9, 'set:fresh_client_acts': 24})},
+                    drain_plans_fully_consumed=93720, partial_drains=1900000, mid_drain_writes_scripted=125000, writes_between_partial_drains=125000, backlogs_drained_in_3plus_sends=160000,
+                    backlogs_with_2plus_mid_drain_writes=35000, appends_in_place_behind_front_offset=25000, appends_compacting=88000, cases_with_append_behind_front_offset=11000,
+                    onWrite_acts=76000, suspends_in_onWrite=38000, writes_in_onWrite_act=38000, writes_in_onWrite_act_leaving_backlog=16000, peer_data_injected_before_draining_poll=39000,
+                    events_readable_and_writable_with_onWrite_suspend_scripted=45000, followups_after_onWrite_suspend=28000, removes_in_callback=11000, remove_while_event_selected=8500,
+                    rand_cases_with_drain_scripts=45000,
+                    **{'set:send_outcomes': 12, 'set:write_venues': 9, 'set:fresh_client_acts': 24, 'set:onWrite_acts': 24, 'set:buffer_append_branches': 5})},
 )
